@@ -155,6 +155,18 @@ class C19(scen.WorldProp):
             events += [[t_sel, "msg", method_msg(s2)], [t_stop, "msg", {"m": "stop_touch"}],
                        [t1 - 0.4, "msg", {"m": "global_state", "state": [True] * N}],     # bells set at hand
                        call(t1, LOOK_TO)]
+            if rng.random() < 0.4:
+                # between the touches the tower shrinks below the selection (which is discarded), grows back, the
+                # bells are given to Wheatley again and the very same selection is made once more: it must be rung
+                small = max(1, min(s2 - 1, rng.choice([3, 4, 5])))
+                t1 = t_stop + 2.0 + rng.random()
+                events = events[:-2]
+                events += [[t_stop + 0.3, "msg", {"m": "size_change", "size": small}],
+                           [t_stop + 0.6, "msg", {"m": "size_change", "size": N}]]
+                events += [[t_stop + 0.7 + 0.01 * b, "msg", {"m": "assign", "bell": b, "user": 5}] for b in range(small + 1, N + 1)]
+                events += [[t1 - 0.5, "msg", method_msg(s2)],
+                           [t1 - 0.3, "msg", {"m": "global_state", "state": [True] * N}], call(t1, LOOK_TO)]
+                plan.update(reselected=True)
             end = t1 + 3 + 7 * row_t
             plan.update(second=s2, t_sel=t_sel, t_stop=t_stop, t1=t1)
         elif r < 0.55:
